@@ -26,11 +26,13 @@ _DATA = canonjson.canon(_PAY)
 _HDR = bytes.fromhex("04001608001d162104" + "11" * 20 + "05025f0bf546")
 _RAWSIG = ed25519.sign(K0.seed, _DATA).hex()
 _GPGE = openpgp.make_entry(K0.seed, _DATA, _HDR)
+_GPGE_SA = dict(_GPGE, see_also="ab" * 20)
 _DELEG = {"pubkeys": [K0.hex, K1.hex], "threshold": 1}
 _ROOT_SIGNED = gmd.root_md(1, [K0], 1, [K1], 1)
 _ROOT2_SIGNED = gmd.root_md(2, [K0], 1, [K1], 1)
 _ROOT = {"signatures": {K0.hex: openpgp.make_entry(K0.seed, canonjson.canon(_ROOT_SIGNED), _HDR)}, "signed": _ROOT_SIGNED}
-_ROOT2 = {"signatures": {K0.hex: openpgp.make_entry(K0.seed, canonjson.canon(_ROOT2_SIGNED), _HDR)}, "signed": _ROOT2_SIGNED}
+_ROOT2 = {"signatures": {K0.hex: openpgp.make_entry(K0.seed, canonjson.canon(_ROOT2_SIGNED), _HDR, see_also="cd" * 20)}, "signed": _ROOT2_SIGNED}
+_ENV_GPG_SA = {"signatures": {K0.hex: openpgp.make_entry(K0.seed, _DATA, _HDR, see_also="ab" * 20), K1.hex: {"signature": _RAWSIG}}, "signed": _PAY}
 _KM_SIGNED = gmd.delegating("key_mgr", {"pkg_mgr": gmd.delegation([K0], 1)})
 _KM = {"signatures": {K1.hex: {"signature": ed25519.sign(K1.seed, canonjson.canon(_KM_SIGNED)).hex()}}, "signed": _KM_SIGNED}
 _ENV = {"signatures": {K0.hex: {"signature": _RAWSIG}}, "signed": _PAY}
@@ -56,6 +58,10 @@ ONE_ARG = [
     ("common.is_signature", [{"signature": _RAWSIG}]),
     ("common.checkformat_signature", [{"signature": _RAWSIG}]),
     ("common.checkformat_any_signature", [_GPGE]),
+    ("common.checkformat_any_signature", [_GPGE_SA]),
+    ("common.checkformat_gpg_signature", [_GPGE_SA]),
+    ("common.is_signature", [_GPGE_SA]),
+    ("common.is_gpg_signature", [_GPGE_SA]),
     ("common.checkformat_delegation", [_DELEG]),
     ("common.checkformat_delegations", [{"root": _DELEG, "key_mgr": _DELEG}]),
     ("common.checkformat_delegating_metadata", [_ROOT]),
@@ -67,6 +73,9 @@ VERIFIERS = [
     ("authentication.verify_gpg_signature", [_GPGE, K0.hex, {"$py": "bytes", "hex": _DATA.hex()}]),
     ("authentication.verify_signable", [_ENV, [K0.hex], 1, False]),
     ("authentication.verify_signable", [_ROOT, [K0.hex], 1, True]),
+    ("authentication.verify_signable", [_ENV_GPG_SA, [K0.hex, K1.hex], 1, True]),
+    ("authentication.verify_signable", [_ENV_GPG_SA, [K0.hex, K1.hex], 1, False]),
+    ("authentication.verify_gpg_signature", [_GPGE_SA, K0.hex, {"$py": "bytes", "hex": _DATA.hex()}]),
     ("authentication.verify_root", [_ROOT, _ROOT2]),
     ("authentication.verify_delegation", ["key_mgr", _KM, _ROOT, False]),
     ("authentication.verify_delegation", ["root", _ROOT2, _ROOT, True]),
